@@ -37,8 +37,9 @@ What is covered for WHICH configurations:
   `Props/C08Shared.lean` (`projectByDykstraT_cfg_converges_shape`: hypothesis `CfgShape` only;
   `Lemmas/DykstraConvShared.lean` is the abstract theorem for one correction per set and any cyclic
   order with repetitions); the harness classes `dup:*` test the same on the real code.
-* NOT covered by a convergence theorem: `(d, d)` dominance / joint-monotonicity pairs (finding
-  F-C08-c, not modelled); range dominance (below).
+* NOT covered by a convergence theorem: range dominance (below). (`(d, d)` dominance /
+  joint-monotonicity pairs are rejected at construction since /repo 18dd711 — formerly finding F-C08-c;
+  `Props/C08Accepted.lean` derives `p.1 ≠ p.2` from acceptance.)
 
 Proved (for every group list, every iteration count, every kernel):
 * T2 `dykstra_fixpoint`: if every group map fixes `w`, the whole loop returns `w` with all
@@ -1609,11 +1610,10 @@ def KeyWF (sizes : List Nat) : GKey → Prop
 /-- the shape of a configuration the convergence theorems of the POSITION-slotted loop need: the
 trusts / pairs name two different dimensions of the lattice, the dims of a joint unimodality are
 distinct and in range, no range dominance.
-`verify_hyperparameters` guarantees `edge`, `trap`, `juni` and the range parts of `mdom`, `jmono`;
-`p.1 ≠ p.2` is guaranteed for dominances / joint monotonicities only with the proposed repair
-`repo_patches/F-C08-c.diff` (today `monotonic_dominances=[(0, 0)]`, `joint_monotonicities=[(0, 0)]` are
-accepted, and the real projection then reads axis `d+1` or raises: finding F-C08-c, the model does not
-mirror that). -/
+`verify_hyperparameters` guarantees `edge`, `trap`, `juni`, `mdom` and `jmono` (`p.1 ≠ p.2` since /repo
+18dd711: `monotonic_dominances=[(0, 0)]`, `joint_monotonicities=[(0, 0)]` are rejected — before that fix
+they were accepted and the projection read axis `d+1` or raised, fixed finding F-C08-c); only `rdom` is
+not a consequence of acceptance (`Props/C08Accepted.lean`: `verifyLattice_cfgShape`). -/
 structure CfgShape (c : DCfg) : Prop where
   edge : ∀ tr ∈ c.edgeworth, TrustWF c.sizes tr
   trap : ∀ tr ∈ c.trapezoid, TrustWF c.sizes tr
